@@ -35,6 +35,11 @@ CLAIMED = {
    note="Assumes: a process kill between two statements leaves exactly the file contents visible at that point (SQLite autocommit, page cache survives SIGKILL); kills inside one statement rely on SQLite's atomic commit. The restore loop of Start() is represented by the reader calls it makes. HTTP listener rows are C16 material; here listeners are External ones.",
    technique="TLA+ spec with crash points + exhaustive TLC; statement-level hooks give every kill point of replayed behaviours; TLC trace validation",
    design="DESIGN.md §5 C10"),
+ "C07": dict(
+   text="Loot.tla is a path algebra over component sequences (lexical clean, component-wise containment, the directories a recursive mkdir makes on the way, name/directory clashes) plus the open/write/close life cycle per file id and the third-party service file path; TLC checks OwnFolderOnly over all interleavings to depth 5-7 for 2 agents x 2 file ids. Conformance: all 399 file names of <= 3 components over {.., ., empty, Download, Download_x, sub, f} (separators / and \\ per joint and an optional trailing NUL chosen by the seed) go through a real download open/write/write/close/stray-write sequence; the alphabet also goes through the service file writer; seeded interleavings cover several ids and agents. After every step the entire scratch tree above the loot directory is listed and every file read back; TLC validates the listings strictly (tree equals the model's) and with the monitor (nothing outside agents/<id>/Download, nothing unexpected elsewhere, content equals the chunks sent).",
+   note="Trusted: the tree lister/decoder in drive/loot.go. Two writers holding the same target file at once are outside the property (content is defined per file id) and excluded from generation. Crafted third-party agent ids are not exercised: a failing log-file open in pkg/logr ends in log.Fatal, which would terminate the harness process (recorded in DESIGN.md as an observation, not as a C07 finding).",
+   technique="TLA+ path-algebra spec + TLC; complete name alphabet and interleavings replayed into the real code; TLC trace validation of tree listings",
+   design="DESIGN.md §5 C07"),
 }
 NOT_BUILT = "machinery not built yet (construction order in DESIGN.md §8); not claimed until its check runs clean on the unchanged tree"
 
